@@ -34,6 +34,8 @@ pub enum Op {
     Manual(bool, Option<u8>, Option<u8>),
     ManualI(bool, u8),
     ManualR(bool, u8),
+    /// move sending and receiving counters of the direction (false = i->r) to a large value
+    Jump(bool, u8),
 }
 
 #[derive(Clone, Debug, Serialize, Deserialize)]
@@ -94,7 +96,12 @@ fn oracle(c: &Case, acc: &mut Acc) -> CaseResult {
     } else {
         [T::F(pair.i.into_transport_mode().map_err(|x| Fail::setup(e(&x)))?), T::F(pair.r.into_transport_mode().map_err(|x| Fail::setup(e(&x)))?)]
     };
-    let pool = [expand32(c.seed, 900), expand32(c.seed, 901), expand32(c.seed, 902)];
+    let mut pool = [expand32(c.seed, 900), expand32(c.seed, 901), expand32(c.seed, 902)];
+    pool[0][0] = 0; // a key with a leading zero byte
+    pool[1][31] = 0;
+    // pool[2] shares its first 24 bytes with pool[1] (keys of the form secret || counter)
+    let p1 = pool[1];
+    pool[2][..24].copy_from_slice(&p1[..24]);
     let mut sn = [0u64; 2]; // per direction
     let mut rn = [0u64; 2];
     let mut pending: [std::collections::VecDeque<Msg>; 2] = [Default::default(), Default::default()];
@@ -201,6 +208,22 @@ fn oracle(c: &Case, acc: &mut Acc) -> CaseResult {
                 }
                 key[s][0] = k;
                 rekeyed = true;
+            },
+            Op::Jump(d, which) => {
+                let d = *d as usize;
+                if (oneway && d == 1) || !pending[d].is_empty() {
+                    continue; // only when nothing is in flight in that direction
+                }
+                let v = [254u64, 65534, (1 << 24) - 2, (1 << 31) - 2, (1 << 32) - 2, (1 << 32) + 7, (1 << 48) - 2, (1 << 63) - 2, u64::MAX - 40][*which as usize % 9];
+                sn[d] = v;
+                rn[d] = v;
+                let (s, r) = (d, 1 - d);
+                if let T::F(t) = &mut ts[s] {
+                    t.verif_set_sending_nonce(v);
+                }
+                if let T::F(t) = &mut ts[r] {
+                    t.set_receiving_nonce(v);
+                }
             },
             Op::ManualR(side_i, a) => {
                 let s = !*side_i as usize;
@@ -314,6 +337,7 @@ pub fn run(ctx: &Ctx) {
                 1 => (any::<bool>(), k(), k()).prop_map(|(s, a, b)| Op::Manual(s, a, b)),
                 1 => (any::<bool>(), 0u8..3).prop_map(|(s, a)| Op::ManualI(s, a)),
                 1 => (any::<bool>(), 0u8..3).prop_map(|(s, a)| Op::ManualR(s, a)),
+                1 => (any::<bool>(), 0u8..9).prop_map(|(d, w)| Op::Jump(d, w)),
             ];
             (prop_oneof![3 => Just("NN"), 1 => Just("N"), 1 => Just("XX"), 1 => Just("K")], 0usize..24, any::<bool>(), any::<bool>(), prop::collection::vec(op, 0..40), any::<u64>()).prop_map(|(p, suite_idx, ring, stateless, ops, seed)| Case {
                 pattern: p.to_string(),
